@@ -29,7 +29,9 @@ const L21_JOINT_OK: Shape = L21S.with_conf(&[1, 2, 3], &[1, 2, 4], &[], &[], fal
 const L21_HB_PROBE: Shape = L21S.with_commit(1).with_persisted(2).with_peers(&[PeerShape::probe(2, 2).matched(1).paused(), PeerShape::probe(3, 2).matched(0).paused()]);
 const L21_HB_FULL: Shape = L21S.with_inflight(1).with_commit(1).with_persisted(2).with_peers(&[PeerShape::replicate(2, 3, 1).matched(1), PeerShape::probe(3, 2).matched(0).paused()]);
 const L21_HB_SNAP: Shape = L21S.with_commit(1).with_persisted(2).with_peers(&[PeerShape::snapshot(2, 2).matched(0), PeerShape::probe(3, 2).matched(0).paused()]);
-const L21_HB_DONE: Shape = L21S.with_commit(1).with_persisted(2).with_peers(&[PeerShape::replicate(2, 4, 0).matched(3), PeerShape::probe(3, 2).matched(0).paused()]);
+const L21_HB_DONE: Shape = L21S.with_commit(1).with_persisted(2).with_peers(&[PeerShape::replicate(2, 4, 0).matched(3), PeerShape::probe(3, 2).matched(1).paused()]);
+const L21_SNAP_ACK: Shape = L21S.with_commit(1).with_persisted(2).with_peers(&[PeerShape::snapshot(2, 2).matched(0).pending_snapshot(3), PeerShape::probe(3, 2).matched(0).paused()]);
+const L21_SNAP_DONE: Shape = L21S.with_commit(1).with_persisted(2).with_peers(&[PeerShape::snapshot(2, 2).matched(0).pending_snapshot(2), PeerShape::probe(3, 2).matched(0).paused()]);
 // check-quorum: peers inactive / one active
 const L21_CQ_LOST: Shape = L21S.with_flags(true, false, false).with_commit(1).with_persisted(2).with_peers(&[PeerShape::probe(2, 2).matched(1).inactive(), PeerShape::probe(3, 2).matched(0).inactive()]);
 const L21_CQ_OK: Shape = L21S.with_flags(true, false, false).with_commit(1).with_persisted(2).with_peers(&[PeerShape::probe(2, 2).matched(1), PeerShape::probe(3, 2).matched(0).inactive()]);
@@ -289,6 +291,12 @@ harnesses! {
     { appresp_ack_joint_yes, "C04,C12", quick, unwind = 8,
       "leader in joint config {1,2,3}&&{1,2,4}: ack from 2 gives a majority of both halves -> commits",
       |s| c04::appresp_step(s, &L21_JOINT_OK, 2, 2, false, 0, 0, false, true) }
+    { appresp_ack_snapshot_stale, "C13,C15,C10", quick, unwind = 8,
+      "leader: a (delayed) ack of index 1 from a peer whose snapshot at index 3 is still outstanding: matched rises but the peer stays in Snapshot state and nothing is sent",
+      |s| c04::appresp_step(s, &L21_SNAP_ACK, 2, 1, false, 0, 0, false, false) }
+    { appresp_ack_snapshot_done, "C13,C15,C10", quick, unwind = 8,
+      "leader: ack of index 2 = the pending snapshot index -> snapshot caught up, probing resumes after it",
+      |s| c04::appresp_step(s, &L21_SNAP_DONE, 2, 2, false, 0, 0, false, true) }
     // ---------------- leader: heartbeat responses, local inputs, proposals, transfer, tick ----------------
     { hbresp_probe_paused, "C10,C13", quick, unwind = 8,
       "leader: heartbeat response from a paused probing peer that is behind: resumed, exactly one append sent",
@@ -341,6 +349,9 @@ harnesses! {
     { propose_cc_pending, "C09", quick, unwind = 8,
       "leader: membership proposal while another one is unapplied (pending_conf_index 3 > applied 1) -> replaced by an empty normal entry",
       |s| c04::propose_step(s, &L21_PROP, &[1], 0, 3, false, u64::MAX, 0) }
+    { propose_normal_then_cc, "C09,C02", quick, unwind = 8,
+      "leader: one proposal batching [normal entry, V1 membership change] -> pending_conf_index must be the index of the membership entry, not of the batch start",
+      |s| c04::propose_step(s, &L21_PROP, &[0, 1], 1, 1, false, u64::MAX, 0) }
     { propose_cc_two, "C09", quick, unwind = 8,
       "leader: two membership entries in one proposal -> the second is replaced",
       |s| c04::propose_step(s, &L21_PROP, &[1, 3], 0, 1, false, u64::MAX, 0) }
@@ -393,6 +404,157 @@ harnesses! {
     { hup_f30_clear, "C09", quick, unwind = 8,
       "same with only normal entries in (applied, commit]: campaigns (pre-vote or vote per flag), requests carry true last index/term/commit",
       |s| c09::hup_step(s, &F30.with_applied(1).with_commit(3).with_etypes(&[1, 0, 0]), 0) }
+    // ---------------- C11 quorum arithmetic ----------------
+    { @nostub quorum_ci_0_0, "C11", quick, unwind = 8,
+      "JointConfig/MajorityConfig::committed_index for halves of 0 and 0 voters: symbolic distinct ids per half (overlap free), symbolic 64-bit acked indexes, some ids unknown to the indexer; group commit with symbolic groups 0..3; counting oracle",
+      |s| c11::committed_index(s, 0, 0, true) }
+    { @nostub quorum_vote_0_0, "C11", quick, unwind = 8,
+      "JointConfig::vote_result for halves of 0 and 0 voters: symbolic ids, symbolic yes/no/missing per id; won/lost/pending oracle",
+      |s| c11::vote_result(s, 0, 0) }
+    { @nostub quorum_ci_0_3, "C11", thorough, unwind = 8,
+      "JointConfig/MajorityConfig::committed_index for halves of 0 and 3 voters: symbolic distinct ids per half (overlap free), symbolic 64-bit acked indexes, some ids unknown to the indexer; group commit with symbolic groups 0..3; counting oracle",
+      |s| c11::committed_index(s, 0, 3, true) }
+    { @nostub quorum_vote_0_3, "C11", thorough, unwind = 8,
+      "JointConfig::vote_result for halves of 0 and 3 voters: symbolic ids, symbolic yes/no/missing per id; won/lost/pending oracle",
+      |s| c11::vote_result(s, 0, 3) }
+    { @nostub quorum_ci_1_0, "C11", quick, unwind = 8,
+      "JointConfig/MajorityConfig::committed_index for halves of 1 and 0 voters: symbolic distinct ids per half (overlap free), symbolic 64-bit acked indexes, some ids unknown to the indexer; group commit with symbolic groups 0..3; counting oracle",
+      |s| c11::committed_index(s, 1, 0, true) }
+    { @nostub quorum_vote_1_0, "C11", quick, unwind = 8,
+      "JointConfig::vote_result for halves of 1 and 0 voters: symbolic ids, symbolic yes/no/missing per id; won/lost/pending oracle",
+      |s| c11::vote_result(s, 1, 0) }
+    { @nostub quorum_ci_1_1, "C11", thorough, unwind = 8,
+      "JointConfig/MajorityConfig::committed_index for halves of 1 and 1 voters: symbolic distinct ids per half (overlap free), symbolic 64-bit acked indexes, some ids unknown to the indexer; group commit with symbolic groups 0..3; counting oracle",
+      |s| c11::committed_index(s, 1, 1, true) }
+    { @nostub quorum_vote_1_1, "C11", thorough, unwind = 8,
+      "JointConfig::vote_result for halves of 1 and 1 voters: symbolic ids, symbolic yes/no/missing per id; won/lost/pending oracle",
+      |s| c11::vote_result(s, 1, 1) }
+    { @nostub quorum_ci_2_0, "C11", quick, unwind = 8,
+      "JointConfig/MajorityConfig::committed_index for halves of 2 and 0 voters: symbolic distinct ids per half (overlap free), symbolic 64-bit acked indexes, some ids unknown to the indexer; group commit with symbolic groups 0..3; counting oracle",
+      |s| c11::committed_index(s, 2, 0, true) }
+    { @nostub quorum_vote_2_0, "C11", quick, unwind = 8,
+      "JointConfig::vote_result for halves of 2 and 0 voters: symbolic ids, symbolic yes/no/missing per id; won/lost/pending oracle",
+      |s| c11::vote_result(s, 2, 0) }
+    { @nostub quorum_ci_2_1, "C11", thorough, unwind = 8,
+      "JointConfig/MajorityConfig::committed_index for halves of 2 and 1 voters: symbolic distinct ids per half (overlap free), symbolic 64-bit acked indexes, some ids unknown to the indexer; group commit with symbolic groups 0..3; counting oracle",
+      |s| c11::committed_index(s, 2, 1, true) }
+    { @nostub quorum_vote_2_1, "C11", thorough, unwind = 8,
+      "JointConfig::vote_result for halves of 2 and 1 voters: symbolic ids, symbolic yes/no/missing per id; won/lost/pending oracle",
+      |s| c11::vote_result(s, 2, 1) }
+    { @nostub quorum_ci_2_2, "C11", thorough, unwind = 8,
+      "JointConfig/MajorityConfig::committed_index for halves of 2 and 2 voters: symbolic distinct ids per half (overlap free), symbolic 64-bit acked indexes, some ids unknown to the indexer; group commit with symbolic groups 0..3; counting oracle",
+      |s| c11::committed_index(s, 2, 2, true) }
+    { @nostub quorum_vote_2_2, "C11", thorough, unwind = 8,
+      "JointConfig::vote_result for halves of 2 and 2 voters: symbolic ids, symbolic yes/no/missing per id; won/lost/pending oracle",
+      |s| c11::vote_result(s, 2, 2) }
+    { @nostub quorum_ci_2_3, "C11", quick, unwind = 8,
+      "JointConfig/MajorityConfig::committed_index for halves of 2 and 3 voters: symbolic distinct ids per half (overlap free), symbolic 64-bit acked indexes, some ids unknown to the indexer; group commit with symbolic groups 0..3; counting oracle",
+      |s| c11::committed_index(s, 2, 3, true) }
+    { @nostub quorum_vote_2_3, "C11", quick, unwind = 8,
+      "JointConfig::vote_result for halves of 2 and 3 voters: symbolic ids, symbolic yes/no/missing per id; won/lost/pending oracle",
+      |s| c11::vote_result(s, 2, 3) }
+    { @nostub quorum_ci_3_0, "C11", quick, unwind = 8,
+      "JointConfig/MajorityConfig::committed_index for halves of 3 and 0 voters: symbolic distinct ids per half (overlap free), symbolic 64-bit acked indexes, some ids unknown to the indexer; group commit with symbolic groups 0..3; counting oracle",
+      |s| c11::committed_index(s, 3, 0, true) }
+    { @nostub quorum_vote_3_0, "C11", quick, unwind = 8,
+      "JointConfig::vote_result for halves of 3 and 0 voters: symbolic ids, symbolic yes/no/missing per id; won/lost/pending oracle",
+      |s| c11::vote_result(s, 3, 0) }
+    { @nostub quorum_ci_3_1, "C11", thorough, unwind = 8,
+      "JointConfig/MajorityConfig::committed_index for halves of 3 and 1 voters: symbolic distinct ids per half (overlap free), symbolic 64-bit acked indexes, some ids unknown to the indexer; group commit with symbolic groups 0..3; counting oracle",
+      |s| c11::committed_index(s, 3, 1, true) }
+    { @nostub quorum_vote_3_1, "C11", thorough, unwind = 8,
+      "JointConfig::vote_result for halves of 3 and 1 voters: symbolic ids, symbolic yes/no/missing per id; won/lost/pending oracle",
+      |s| c11::vote_result(s, 3, 1) }
+    { @nostub quorum_ci_3_2, "C11", thorough, unwind = 8,
+      "JointConfig/MajorityConfig::committed_index for halves of 3 and 2 voters: symbolic distinct ids per half (overlap free), symbolic 64-bit acked indexes, some ids unknown to the indexer; group commit with symbolic groups 0..3; counting oracle",
+      |s| c11::committed_index(s, 3, 2, true) }
+    { @nostub quorum_vote_3_2, "C11", thorough, unwind = 8,
+      "JointConfig::vote_result for halves of 3 and 2 voters: symbolic ids, symbolic yes/no/missing per id; won/lost/pending oracle",
+      |s| c11::vote_result(s, 3, 2) }
+    { @nostub quorum_ci_3_3, "C11", quick, unwind = 8,
+      "JointConfig/MajorityConfig::committed_index for halves of 3 and 3 voters: symbolic distinct ids per half (overlap free), symbolic 64-bit acked indexes, some ids unknown to the indexer; group commit with symbolic groups 0..3; counting oracle",
+      |s| c11::committed_index(s, 3, 3, true) }
+    { @nostub quorum_vote_3_3, "C11", quick, unwind = 8,
+      "JointConfig::vote_result for halves of 3 and 3 voters: symbolic ids, symbolic yes/no/missing per id; won/lost/pending oracle",
+      |s| c11::vote_result(s, 3, 3) }
+    { @nostub quorum_ci_4_0, "C11", thorough, unwind = 8,
+      "JointConfig/MajorityConfig::committed_index for halves of 4 and 0 voters: symbolic distinct ids per half (overlap free), symbolic 64-bit acked indexes, some ids unknown to the indexer; group commit with symbolic groups 0..3; counting oracle",
+      |s| c11::committed_index(s, 4, 0, true) }
+    { @nostub quorum_vote_4_0, "C11", thorough, unwind = 8,
+      "JointConfig::vote_result for halves of 4 and 0 voters: symbolic ids, symbolic yes/no/missing per id; won/lost/pending oracle",
+      |s| c11::vote_result(s, 4, 0) }
+    { @nostub quorum_ci_4_1, "C11", thorough, unwind = 8,
+      "JointConfig/MajorityConfig::committed_index for halves of 4 and 1 voters: symbolic distinct ids per half (overlap free), symbolic 64-bit acked indexes, some ids unknown to the indexer; group commit with symbolic groups 0..3; counting oracle",
+      |s| c11::committed_index(s, 4, 1, true) }
+    { @nostub quorum_vote_4_1, "C11", thorough, unwind = 8,
+      "JointConfig::vote_result for halves of 4 and 1 voters: symbolic ids, symbolic yes/no/missing per id; won/lost/pending oracle",
+      |s| c11::vote_result(s, 4, 1) }
+    { @nostub quorum_ci_4_2, "C11", thorough, unwind = 8,
+      "JointConfig/MajorityConfig::committed_index for halves of 4 and 2 voters: symbolic distinct ids per half (overlap free), symbolic 64-bit acked indexes, some ids unknown to the indexer; group commit with symbolic groups 0..3; counting oracle",
+      |s| c11::committed_index(s, 4, 2, true) }
+    { @nostub quorum_vote_4_2, "C11", thorough, unwind = 8,
+      "JointConfig::vote_result for halves of 4 and 2 voters: symbolic ids, symbolic yes/no/missing per id; won/lost/pending oracle",
+      |s| c11::vote_result(s, 4, 2) }
+    { @nostub quorum_ci_4_3, "C11", thorough, unwind = 8,
+      "JointConfig/MajorityConfig::committed_index for halves of 4 and 3 voters: symbolic distinct ids per half (overlap free), symbolic 64-bit acked indexes, some ids unknown to the indexer; group commit with symbolic groups 0..3; counting oracle",
+      |s| c11::committed_index(s, 4, 3, true) }
+    { @nostub quorum_vote_4_3, "C11", thorough, unwind = 8,
+      "JointConfig::vote_result for halves of 4 and 3 voters: symbolic ids, symbolic yes/no/missing per id; won/lost/pending oracle",
+      |s| c11::vote_result(s, 4, 3) }
+    { @nostub quorum_ci_4_4, "C11", thorough, unwind = 8,
+      "JointConfig/MajorityConfig::committed_index for halves of 4 and 4 voters: symbolic distinct ids per half (overlap free), symbolic 64-bit acked indexes, some ids unknown to the indexer; group commit with symbolic groups 0..3; counting oracle",
+      |s| c11::committed_index(s, 4, 4, true) }
+    { @nostub quorum_vote_4_4, "C11", thorough, unwind = 8,
+      "JointConfig::vote_result for halves of 4 and 4 voters: symbolic ids, symbolic yes/no/missing per id; won/lost/pending oracle",
+      |s| c11::vote_result(s, 4, 4) }
+    { @nostub quorum_ci_5_0, "C11", thorough, unwind = 8,
+      "JointConfig/MajorityConfig::committed_index for halves of 5 and 0 voters: symbolic distinct ids per half (overlap free), symbolic 64-bit acked indexes, some ids unknown to the indexer; group commit with symbolic groups 0..3; counting oracle",
+      |s| c11::committed_index(s, 5, 0, true) }
+    { @nostub quorum_vote_5_0, "C11", quick, unwind = 8,
+      "JointConfig::vote_result for halves of 5 and 0 voters: symbolic ids, symbolic yes/no/missing per id; won/lost/pending oracle",
+      |s| c11::vote_result(s, 5, 0) }
+    { @nostub quorum_ci_5_1, "C11", thorough, unwind = 8,
+      "JointConfig/MajorityConfig::committed_index for halves of 5 and 1 voters: symbolic distinct ids per half (overlap free), symbolic 64-bit acked indexes, some ids unknown to the indexer; group commit with symbolic groups 0..3; counting oracle",
+      |s| c11::committed_index(s, 5, 1, true) }
+    { @nostub quorum_vote_5_1, "C11", thorough, unwind = 8,
+      "JointConfig::vote_result for halves of 5 and 1 voters: symbolic ids, symbolic yes/no/missing per id; won/lost/pending oracle",
+      |s| c11::vote_result(s, 5, 1) }
+    { @nostub quorum_ci_5_2, "C11", thorough, unwind = 8,
+      "JointConfig/MajorityConfig::committed_index for halves of 5 and 2 voters: symbolic distinct ids per half (overlap free), symbolic 64-bit acked indexes, some ids unknown to the indexer; group commit with symbolic groups 0..3; counting oracle",
+      |s| c11::committed_index(s, 5, 2, true) }
+    { @nostub quorum_vote_5_2, "C11", thorough, unwind = 8,
+      "JointConfig::vote_result for halves of 5 and 2 voters: symbolic ids, symbolic yes/no/missing per id; won/lost/pending oracle",
+      |s| c11::vote_result(s, 5, 2) }
+    { @nostub quorum_ci_5_3, "C11", thorough, unwind = 8,
+      "JointConfig/MajorityConfig::committed_index for halves of 5 and 3 voters: symbolic distinct ids per half (overlap free), symbolic 64-bit acked indexes, some ids unknown to the indexer; group commit with symbolic groups 0..3; counting oracle",
+      |s| c11::committed_index(s, 5, 3, true) }
+    { @nostub quorum_vote_5_3, "C11", thorough, unwind = 8,
+      "JointConfig::vote_result for halves of 5 and 3 voters: symbolic ids, symbolic yes/no/missing per id; won/lost/pending oracle",
+      |s| c11::vote_result(s, 5, 3) }
+    { @nostub quorum_ci_5_4, "C11", thorough, unwind = 8,
+      "JointConfig/MajorityConfig::committed_index for halves of 5 and 4 voters: symbolic distinct ids per half (overlap free), symbolic 64-bit acked indexes, some ids unknown to the indexer; group commit with symbolic groups 0..3; counting oracle",
+      |s| c11::committed_index(s, 5, 4, true) }
+    { @nostub quorum_vote_5_4, "C11", thorough, unwind = 8,
+      "JointConfig::vote_result for halves of 5 and 4 voters: symbolic ids, symbolic yes/no/missing per id; won/lost/pending oracle",
+      |s| c11::vote_result(s, 5, 4) }
+    { @nostub quorum_ci_5_5, "C11", thorough, unwind = 8,
+      "JointConfig/MajorityConfig::committed_index for halves of 5 and 5 voters: symbolic distinct ids per half (overlap free), symbolic 64-bit acked indexes, some ids unknown to the indexer; group commit with symbolic groups 0..3; counting oracle",
+      |s| c11::committed_index(s, 5, 5, true) }
+    { @nostub quorum_vote_5_5, "C11", thorough, unwind = 8,
+      "JointConfig::vote_result for halves of 5 and 5 voters: symbolic ids, symbolic yes/no/missing per id; won/lost/pending oracle",
+      |s| c11::vote_result(s, 5, 5) }
+    { @nostub quorum_tracker_simple, "C11", quick, unwind = 8,
+      "ProgressTracker::{maximal_committed_index (real), tally_votes, vote_result, quorum_recently_active} on voters {1,2,3} + untracked-voter 4: symbolic matched / votes / activity",
+      |s| c11::tracker(s, &[1, 2, 3], &[]) }
+    { @nostub quorum_tracker_joint, "C11,C12", quick, unwind = 8,
+      "same in the joint configuration {1,2,3}&&{2,3,4}",
+      |s| c11::tracker(s, &[1, 2, 3], &[2, 3, 4]) }
+    { @nostub quorum_tracker_joint_5_2, "C11,C12", quick, unwind = 8,
+      "same in the asymmetric joint configuration {1,2,3,4,5}&&{2,3}",
+      |s| c11::tracker(s, &[1, 2, 3, 4, 5], &[2, 3]) }
+    { @nostub quorum_tracker_2, "C11", quick, unwind = 8,
+      "same for the two-voter configuration {1,2} (even size: a single rejection decides)",
+      |s| c11::tracker(s, &[1, 2], &[]) }
     // ---------------- C14 RaftLog ----------------
     { dbg1, "DBG", quick, unwind = 10, "dbg", |s| c14::dbg1(s, &L21T) }
     { dbg2, "DBG", quick, unwind = 10, "dbg", |s| c14::dbg2(s, &L21T) }
